@@ -516,6 +516,17 @@ def run_connection(res, tier, seed):
             for a in singles:
                 for b in singles:
                     items.append((cred, a, b, seed))
+    # two changed dimensions on one side (the other side at its defaults)
+    doubles = []
+    flat = [(attr, v) for attr, vals in M for v in vals]
+    for i in range(len(flat)):
+        for j in range(i + 1, len(flat)):
+            if flat[i][0] != flat[j][0]:
+                doubles.append((flat[i], flat[j]))
+    for cred in (["rsa"] if tier == "quick" else creds):
+        for d in doubles:
+            items.append((cred, d, (), seed))
+            items.append((cred, (), d, seed))
     demanded = 0
     n = 0
     for (cred, la, lb, outc, must, why) in pmap(_work_conn, items):
@@ -552,7 +563,8 @@ def run(res, tier, seed):
         "validation: every HandshakeSettings reachable from the defaults by "
         "changing <=d dimensions (d=2 quick, 3 thorough) to a menu value "
         "(in-domain and out-of-domain menus); connection: every pair of "
-        "validated settings with <=1 in-domain change per side x credential; "
+        "validated settings with <=1 in-domain change per side, and with 2 "
+        "changes on one side against the defaults, x credential; "
         "a case is distinct by its change list; non-trivial = at least one "
         "dimension changed")
     n = run_validation(res, tier)
